@@ -407,12 +407,22 @@ Theorem C11_lex_text_roundtrip_partial : forall ts, rtoks_ok ts = true -> lex_re
 Proof. exact lex_re_roundtrip. Qed.
 Print Assumptions C11_lex_text_roundtrip_partial.
 
+(* the tokens of a tree spell its print, for EVERY tree; canon does not change the elaboration of a tree of printable shape *)
+Theorem C11_tokens_spell_print : forall e, rtoks_text (toks_of e) = print e.
+Proof. exact toks_print. Qed.
+Print Assumptions C11_tokens_spell_print.
+
+Theorem C11_canon_same_elaboration_partial : forall t, pattern_ok t = true -> forall st, den (canon t) st = den t st.
+Proof. exact den_canon. Qed.
+Print Assumptions C11_canon_same_elaboration_partial.
+
 Theorem C11_text_roundtrip_partial : forall t,
-  pattern_ok t = true -> rtoks_ok (toks_of t) = true -> rtoks_text (toks_of t) = print t -> parse_re (print t) = Some (canon t).
+  pattern_ok t = true -> rtoks_ok (toks_of t) = true -> parse_re (print t) = Some (canon t).
 Proof. exact text_roundtrip. Qed.
 Print Assumptions C11_text_roundtrip_partial.
 
-(* THE PRINTED REWRITE: tree guards /\ text guards => the text the checker prints, parsed by the text model, elaborates
+(* THE PRINTED REWRITE (tree_text_ok = pattern_ok && rtoks_ok: only the decidable guards of the round trips are left):
+   tree guards /\ text guards => the text the checker prints, parsed by the text model, elaborates
    to an expression equivalent to the original pattern on all subjects, with the same groups *)
 Theorem C11_printed_rewrite_sound_partial : forall pat t1 t2f final,
   simplify2 pat t1 t2f = Some final ->
